@@ -698,6 +698,14 @@ def gen_verifier(repo):
         comm_ok = bool(re.search(r"for\s*\(\s*key\s*,\s*value\s*\)\s+in\s*&\s*blinded_cred_secrets\s*\.\s*committed_attributes\s*\{", f[1], re.S)) and \
                   bool(re.search(r"\.\s*r_caps\s*\.\s*get\s*\(\s*key\s*\)\s*\.\s*ok_or_else", f[1], re.S))
     out.append("/-- `_check_blinded_credential_secrets_correctness_proof`: the commitment loop runs over `blinded_cred_secrets.committed_attributes`\n    (every declared commitment needs `m_caps` and `r_caps` entries) -/\ndef blindedLoopOverDeclaredCommitted : Bool := %s\n" % ("true" if comm_ok else "false"))
+    # ---- verifier: the per-proof record of common-attribute responses is cleared at the start of every verify() call
+    f = find_fn(ver, "verify")
+    reset_ok = False
+    if f:
+        m1 = re.search(r"for\s+(\w+)\s+in\s+self\s*\.\s*common_attributes\s*\.\s*values_mut\s*\(\s*\)\s*\{\s*\*\s*\1\s*=\s*None\s*;\s*\}", f[1], re.S)
+        m2 = re.search(r"for\s+idx\s+in\s+0\s*\.\.\s*proof\s*\.\s*proofs\s*\.\s*len\s*\(\s*\)", f[1], re.S)
+        reset_ok = bool(m1 and m2 and m1.start() < m2.start())
+    out.append("/-- `ProofVerifier::verify` clears the recorded common-attribute responses before it walks the sub-proofs (the verdict on a proof\n    is a function of that proof: the model's `verify` starts from an empty table) -/\ndef commonStateResetPerCall : Bool := %s\n" % ("true" if reset_ok else "false"))
     # ---- holder: the pairing equations of _test_witness_signature, in source order
     f = find_fn(prv, "_test_witness_signature")
     rows = []
